@@ -15,10 +15,16 @@ func treeSort(top *token) *token {
 		"function": 50,
 		"init":     -10,
 	}
+	// a named non-struct type (type MyInt int) is resolved while compiling: a struct or
+	// interface type that mentions it must come after it, wherever it was declared
+	rank := func(t *token) int {
+		if t.Symbol == "type" && len(t.Tokens) > 1 && t.Tokens[1].Symbol != "struct" && t.Tokens[1].Symbol != "interface" {
+			return priority["type"] + 5
+		}
+		return priority[t.Symbol]
+	}
 	sort.SliceStable(tt, func(ai, bi int) bool {
-		a, b := tt[ai], tt[bi]
-		am, bm := priority[a.Symbol], priority[b.Symbol]
-		return am > bm
+		return rank(tt[ai]) > rank(tt[bi])
 	})
 	return top
 }
